@@ -17,7 +17,12 @@ STARTS3 = [0.0, 0.125, 0.375, 0.0625, 0.001]             # three and four decima
 DTS3 = [0.125, 0.0625, 0.001]
 STARTS10 = [0.0, 0.1, 0.3, 1.05]                          # non-dyadic lattice (the session clock is snapped to the decimal grid)
 DTS10 = [0.1, 0.05, 0.3]
-CVALS = [5.0, 7.0, 0.5, 3.0]
+CVALS = [5.0, 7.0, 0.5, 3.0, 0.0, 0, -2.5, 1e10, 0.1 + 0.2]       # incl. falsy (0.0, int 0), negative, large, many decimals
+ROWS = {}                                                 # wave 7: counts per row of the coverage table (notes/C19-report.md)
+
+
+def row(name, n=1):
+    ROWS[name] = ROWS.get(name, 0) + n
 
 
 # ------------------------------------------------------------------ the system under test
@@ -168,8 +173,10 @@ def fmt_cr(c, nr):
         return f"unparseable-format({type(e).__name__})"
 
 
-def fmt_res(res, nr):
-    cols = []
+def fmt_res(res, nr, paths=()):
+    """served session results; a requested path without any value yet (session with zero steps: the server answers {}) is an
+    empty series"""
+    cols = [(p, "") for p in paths if not any(True for sm, a in res.items() for sc, b in a.items() for eq in b.get("equations", {}) if nr((sm, sc, eq)) == p)]
     for sm, a in res.items():
         for sc, b in a.items():
             for eq, ser in b.get("equations", {}).items():
@@ -281,8 +288,14 @@ def metrics_step(srv, iid):
 
 
 def with_clock(st, srv, iid):
+    """what the server holds / serves for the instance beside the session dictionary: the clock in /full-metrics, the
+    instance's timeout (InstanceState.timeout), the flat form of the session results"""
     if st is not None:
         st["metrics_step"] = metrics_step(srv, iid)
+        d = srv.app._instance_manager._instances.get(iid)
+        st["timeout"] = copy.deepcopy(d["timeout"]) if d is not None else "instance unknown"
+        r = srv.client.get(f"/{iid}/flat-session-results")
+        st["flat_results"] = json.loads(r.data) if r.status_code == 200 else {"http": r.status_code}
     return st
 
 
@@ -300,6 +313,8 @@ def step_lines(log, nr, ns, req, exp):
     for i, (settings, resp, rid) in enumerate(log):
         sline = "none" if settings is None else (fmt_row(flat_settings(settings, ns)) or "-")
         vline = "-" if "msg" in resp else (fmt_row(flat_result(resp, nr)) or "-")
+        if "msg" in resp:
+            row("step request beyond the stop time (nothing logged, clock stays)")
         req.append(f"step {sline} {vline}"); exp.append("ok")
         if i + 1 == len(log) or log[i + 1][2] != rid:
             req.append("flush"); exp.append("ok")
@@ -355,7 +370,7 @@ def model_lines(inst, raw_before, log, raw_after, res_after, compress, filestate
             stats["files_with_backrefs"] += 1 if nrefs else 0
             stats["backrefs"] += nrefs
             stats["files"] += 1
-    req.append(f"res {b}"); exp.append(fmt_res(res_after, nr) if "http" not in res_after else "HTTP-ERROR")
+    req.append(f"res {b}"); exp.append(fmt_res(res_after, nr, result_paths(raw_before, nr)) if "http" not in res_after else "HTTP-ERROR")
     return req, exp
 
 
@@ -490,11 +505,16 @@ def _run_case(case, base):
     srv = Server(spec, case["compress"], path)
     req, exp, viol = [], [], []
     nr, ns = Numbering(), Numbering()
-    srv2 = None
+    srv2 = twin = None
     try:
         ids, logs, priors = [], [], []
         for inst in case["instances"]:
-            iid = json.loads(post(srv.client, "/start-instance").data)["instance_uuid"]
+            if case.get("timeouts"):                      # a timeout of its own per instance (InstanceState.timeout must come back)
+                tmo = {"weeks": 0, "days": len(ids), "hours": 1, "minutes": 7 + len(ids), "seconds": 0, "milliseconds": 0, "microseconds": 0}
+                iid = json.loads(post(srv.client, "/start-instance", {"timeout": tmo}).data)["instance_uuid"]
+                row("instance timeout given at start-instance")
+            else:
+                iid = json.loads(post(srv.client, "/start-instance").data)["instance_uuid"]
             hist = []
             for ps in inst.get("prior", []):
                 # an EARLIER session on the same instance: other scenario managers / scenarios / equations / settings
@@ -531,6 +551,17 @@ def _run_case(case, base):
             ids.append(iid); logs.append(log)
         if viol:
             return req, exp, viol
+        if case.get("twin"):
+            # a SECOND server with its own adapter (other directory, other mode) alive in the same process: nothing of it may leak into
+            # this one and vice versa (class-level or module-level state of the adapter / compression code)
+            tpath = path + "-twin"
+            shutil.rmtree(tpath, ignore_errors=True); os.makedirs(tpath)
+            twin = Server(spec, not case["compress"], tpath)
+            tid = json.loads(post(twin.client, "/start-instance").data)["instance_uuid"]
+            twin.bptk(tid).begin_session(scenarios=["a"], scenario_managers=["smB"], settings={}, agents=[], agent_states=[], agent_properties=[],
+                                         agent_property_types=[], individual_agent_properties=[], equations=["c"], starttime=spec["start"], dt=spec["dt"])
+            post(twin.client, f"/{tid}/run-steps", {"settings": {"smB": {"a": {"constants": {"c": 9.0}}}}, "numberSteps": 2})
+            row("second server with the other adapter mode alive in the process")
         if case.get("idle") and SAVE_STATE_SKIPS_SESSIONLESS[0]:
             post(srv.client, "/start-instance")           # an instance that never begins a session: nothing to externalise,
                                                           # and it must not keep /save-state from saving the others
@@ -548,6 +579,15 @@ def _run_case(case, base):
                 if r.status_code != 200:
                     viol.append((f"save-state-http-{r.status_code}", "GET /save-state failed", {}))
                     break
+                # saving works on a copy: the live sessions are as before (state, served results)
+                for n, iid in enumerate(ids):
+                    now = observe(srv, iid)
+                    if now[0] != before[n][0] or now[2] != before[n][2]:
+                        viol.append(("live-session-changed-by-save", f"{'compressed' if case['compress'] else 'plain'} mode: GET /save-state changed the "
+                                     f"live session of instance {n}: fields {[k for k in (before[n][0] or {}) if (now[0] or {}).get(k) != before[n][0].get(k)]}",
+                                     {"instance": n, "route": route}))
+                if viol:
+                    break
                 if route == "server":
                     r = post(srv.client, "/load-state")
                     if r.status_code != 200:
@@ -560,8 +600,18 @@ def _run_case(case, base):
                         viol.append(("startup-load-failed", f"BptkServer.__init__ on the saved state raised {e!r}", {}))
                         break
             for n, iid in enumerate(ids):
+                if not logs[n] and route == "instance":
+                    continue                          # never stepped: not externalised by a step request (the whole-server save writes it)
                 if not logs[n]:
-                    continue                          # never stepped: never externalised (outside the statement)
+                    row("session with zero steps through whole-server save / " + route)
+                if route == "instance":
+                    # the request that makes the server load the instance lazily (`_ensure_instance_exists` is called by every endpoint)
+                    trig = ("session-results", "flat-session-results", "keep-alive")[(n + len(logs[n]) + len(case["instances"])) % 3]
+                    row("lazy load triggered by " + trig)
+                    if trig == "keep-alive":
+                        post(rs.client, f"/{iid}/keep-alive")
+                    elif trig == "flat-session-results":
+                        rs.client.get(f"/{iid}/flat-session-results")
                 res_r = rs.client.get(f"/{iid}/session-results")
                 res_after = json.loads(res_r.data) if res_r.status_code == 200 and rs.bptk(iid) is not None else {"http": res_r.status_code}
                 b = rs.bptk(iid)
@@ -601,10 +651,22 @@ def _run_case(case, base):
                                          {"instance": n, "route": "instance"}))
                 if viol:
                     break
+        if twin is not None and not viol:
+            tb = observe(twin, tid)
+            twin.app._instance_manager._delete_instance(tid)
+            res_r = twin.client.get(f"/{tid}/session-results")
+            b = twin.bptk(tid)
+            c = classify(tb[0], with_clock(canon_state(copy.deepcopy(b.session_state)), twin, tid) if b is not None else None, tb[2],
+                         json.loads(res_r.data) if res_r.status_code == 200 else {"http": res_r.status_code}, not case["compress"])
+            if c is not None:
+                viol.append((c[0], f"second server ({'plain' if case['compress'] else 'compressed'} mode) alive beside this one: {c[1]}", {"twin": True}))
     finally:
         srv.close()
         if srv2 is not None:
             srv2.close()
+        if twin is not None:
+            twin.close()
+            shutil.rmtree(path + "-twin", ignore_errors=True)
         shutil.rmtree(path, ignore_errors=True)
     return req, exp, viol
 
@@ -712,7 +774,8 @@ def gen_case(rng, quick):
     for inst in insts:
         if rng.chance(1, 4):
             inst["sms"] = inst["sms"] + ["nosuch"]        # a manager named in the session that is not registered: {} in every step's results
-    return {"spec": spec, "compress": rng.chance(2, 3), "instances": insts, "idle": rng.chance(1, 3), "startup": rng.chance(1, 2)}
+    return {"spec": spec, "compress": rng.chance(2, 3), "instances": insts, "idle": rng.chance(1, 3), "startup": rng.chance(1, 2),
+            "timeouts": rng.chance(1, 2), "twin": rng.chance(1, 6)}
 
 
 def gen_session_step(rng, sms, scs):
@@ -795,10 +858,16 @@ def exhaustive_cases(quick):
     for j, (start, dt) in enumerate(pairs3):
         for odd in (False, True):
             for compress in ((True, False) if not quick else ((j + odd) % 2 == 0,)):
-                out.append({"spec": {"start": start, "dt": dt, "stop": round(start + 16 * dt, 6)}, "compress": compress,
+                out.append({"spec": {"start": start, "dt": dt, "stop": round(start + 16 * dt, 6)}, "compress": compress, "timeouts": odd, "twin": odd and j % 2 == 0,
                             "instances": [{"sms": ["smA", "smB"], "scs": ["a", "b"], "eqs": ["s", "g"],
                                            "steps": copy.deepcopy(mixed[1:] if odd else mixed),
                                            "extra": [copy.deepcopy(alpha[0])] if odd else [copy.deepcopy(alpha[0]), copy.deepcopy(alpha[4])]}]})
+    # a session that has not been stepped yet beside a stepped one: the whole-server save writes both (empty logs)
+    for compress in (True, False):
+        out.append({"spec": {"start": 0.0, "dt": 0.25, "stop": 3.0}, "compress": compress, "timeouts": True,
+                    "instances": [{"sms": ["smA"], "scs": ["a", "b"], "eqs": ["s", "g"], "steps": [], "extra": [copy.deepcopy(alpha[0])]},
+                                  {"sms": ["smA", "smB"], "scs": ["a"], "eqs": ["c"], "steps": copy.deepcopy([alpha[0], alpha[4]]), "extra": []},
+                                  {"sms": ["smB"], "scs": ["a"], "eqs": ["s"], "settings": copy.deepcopy(S2) if False else {}, "steps": [], "extra": []}]})
     for starts, dts in ((STARTS, DTS), (STARTS10, DTS10)):
         for start in starts:
             for dt in dts:
@@ -1127,6 +1196,7 @@ def _run(chk, base):
             "non_dyadic": 0, "non_normal_settings": 0, "unregistered_manager": 0, "label_text_order_differs": 0, "three_or_four_decimals": 0}
     for k in PK_STATS:
         PK_STATS[k] = 0
+    ROWS.clear()
     for ci, case in enumerate(cases):
         q, e, viol = run_case(case, base)
         owners += [ci] * len(q)
@@ -1144,11 +1214,21 @@ def _run(chk, base):
         dist["non_normal_settings"] += sum(1 for i in case["instances"] for s_ in i["steps"] + i.get("extra", [])
                                            if s_["k"] == "set" and prune(s_["settings"]) != s_["settings"])
         dist["instances"][len(case["instances"])] += 1
+        for i_ in case["instances"]:
+            for s_ in i_["steps"] + i_.get("extra", []) + [x for ps in i_.get("prior", []) for x in ps["steps"]]:
+                for d_ in ([s_["settings"]] if "settings" in s_ else []) + s_.get("pool", []):
+                    for _, v_ in leaves(prune(d_)):
+                        if isinstance(v_, (int, float)) and not isinstance(v_, bool):
+                            row("settings value: " + ("int 0" if v_ == 0 and isinstance(v_, int) else "float 0.0" if v_ == 0 else "negative" if v_ < 0 else
+                                                      "large (1e10)" if v_ >= 1e9 else "many decimals" if len(repr(v_)) > 8 else "plain float"))
+                        else:
+                            row("settings value: list (points table)")
         chk.case(json.dumps(case, sort_keys=True), nontrivial=("set" in kinds or "multi" in kinds or "lib" in kinds) and ("empty" in kinds or "nobody" in kinds),
                  sample=case if len(kinds) >= 4 else None)
         for v in viol:
             viol_by_key.setdefault(v[0], (case, viol))
     chk.cov["input_distribution"] = dist
+    chk.cov["coverage_rows"] = dict(sorted(ROWS.items()))
     chk.cov["pickle_backrefs"] = dict(PK_STATS)
     chk.notes["impl_wall_s"] = round(time.time() - chk.t0, 1)
     model = drive("C19", req) if req else []
